@@ -232,3 +232,32 @@ def time_shrink(case):
         path = path + [len(node) - 1]
         node = node[-1]
     return cands
+
+
+AT_HEADS = ("delayat", "delaysubat", "intervalat", "timerat")
+
+
+def _heads_of(node, acc):
+    if isinstance(node, list) and node:
+        if isinstance(node[0], str):
+            acc.add(node[0])
+        for x in node[1:]:
+            _heads_of(x, acc)
+    return acc
+
+
+def with_units(seed, cases, p=0.2):
+    """A share of the time-suite cases runs with `unit us`: one virtual tick is a MICROsecond, so every
+    duration the library is handed is a sub-millisecond one.  The model is unit-agnostic; the expected lines
+    are the same.  (Not for the `_at` forms: their `Instant::now() + d` arithmetic has microsecond noise.)"""
+    import random
+    rng = random.Random(seed * 31 + 977)
+    for c in cases:
+        if c.suite != "time" or c.field("unit") is not None:
+            continue
+        pipe = c.field("pipe")
+        if not pipe or (_heads_of(pipe[0], set()) & set(AT_HEADS)):
+            continue
+        if rng.random() < p:
+            c.fields.insert(0, ("unit", ["us"]))
+    return cases
